@@ -1,5 +1,6 @@
 #!/bin/sh
 # re-evaluates every kept seeded change against the current checks (quick tier): tools/reseed.sh [pattern]
+# MUT_FAST=1: only the checks are re-run (validity of each change as recorded when it was kept)
 # each change is checked against the property it was written for (and the properties recorded as detecting it)
 export GOFLAGS=-mod=mod GOPROXY=off GOSUMDB=off GOTOOLCHAIN=local
 cd "$(dirname "$0")/.."
